@@ -100,6 +100,73 @@ Errors(prog) ==
                       LET tm == Tops(prog[k].a, k)[1] IN types(tm) \cap EnumTypes # {} /\ ~(tm.op = "app" /\ tm.f \in Ctors)}}
   IN varIntro \cup wildThen \cup defNotNew \cup surj \cup usedOnce \cup conflict \cup undet \cup enumDef
 
+
+(* ---------------- structured rules: branch ... along ... ---------------- *)
+(* A structured program is a sequence of items; an item is a simple statement [k, a] or
+   [k |-> "branch", bs |-> sequence of blocks], a block being a sequence of simple statements.
+   The language's meaning of a branch statement (eqlog.eql: entry/exit scopes of blocks,
+   cfg_edge_fork / cfg_edge_join): every block is entered in the scope and with the facts of the
+   statements before the branch; variables introduced inside a block are local to it; the statements
+   after the branch run after *every* block, under what that block queried and asserted.  Hence the
+   reference verdict is computed on the control-flow paths: block-local variables are renamed apart,
+   every choice of one block per branch gives a flat rule, Errors of each such flat rule are mapped
+   back to the statement they belong to; "used once" counts occurrences over the whole rule. *)
+IsBranch(it) == it.k = "branch"
+VarsOfTerm(t) == {u \in Sub(t) : u.op = "var"}
+VarsOfAtom(a) ==
+  CASE a.t = "pred" -> UNION {VarsOfTerm(a.args[i]) : i \in DOMAIN a.args}
+    [] a.t = "eq"   -> VarsOfTerm(a.l) \cup VarsOfTerm(a.r)
+    [] a.t = "def"  -> VarsOfTerm(a.tm) \cup (IF a.v = NoVar THEN {} ELSE {a.v})
+    [] a.t = "vt"   -> {a.v}
+VarsOfStmts(ss) == UNION {VarsOfAtom(ss[i].a) : i \in DOMAIN ss}
+\* variables in scope at item i: those of the simple statements before it
+ScopeAt(P, i) == UNION {IF IsBranch(P[j]) THEN {} ELSE VarsOfAtom(P[j].a) : j \in 1..(i - 1)}
+RECURSIVE RenT(_, _, _)
+RenT(t, L, sfx) == CASE t.op = "var" -> IF t \in L THEN V(t.n \o sfx) ELSE t
+                     [] t.op = "app" -> [t EXCEPT !.args = [i \in DOMAIN t.args |-> RenT(t.args[i], L, sfx)]]
+                     [] OTHER -> t
+RenA(a, L, sfx) ==
+  CASE a.t = "pred" -> [a EXCEPT !.args = [i \in DOMAIN a.args |-> RenT(a.args[i], L, sfx)]]
+    [] a.t = "eq"   -> [a EXCEPT !.l = RenT(a.l, L, sfx), !.r = RenT(a.r, L, sfx)]
+    [] a.t = "def"  -> [a EXCEPT !.tm = RenT(a.tm, L, sfx), !.v = IF a.v = NoVar THEN NoVar ELSE RenT(a.v, L, sfx)]
+    [] a.t = "vt"   -> [a EXCEPT !.v = RenT(a.v, L, sfx)]
+Block(P, i, b) ==  \* block b of branch item i with its local variables renamed apart
+  LET ss == P[i].bs[b]
+      L == VarsOfStmts(ss) \ ScopeAt(P, i)
+      sfx == "@" \o ToString(i) \o "_" \o ToString(b)
+  IN [j \in DOMAIN ss |-> [k |-> ss[j].k, a |-> RenA(ss[j].a, L, sfx)]]
+Branches(P) == {i \in DOMAIN P : IsBranch(P[i])}
+Choices(P) == {c \in [Branches(P) -> 1..3] : \A i \in Branches(P) : c[i] \in DOMAIN P[i].bs}
+RECURSIVE PathFrom(_, _, _)
+\* <<flat statements, origins>>; an origin is <<item, block, index in block>> (block = 0 for a simple item)
+PathFrom(P, c, i) ==
+  IF i > Len(P) THEN <<<<>>, <<>>>>
+  ELSE LET rest == PathFrom(P, c, i + 1) IN
+       IF IsBranch(P[i])
+       THEN LET blk == Block(P, i, c[i]) IN <<blk \o rest[1], [j \in DOMAIN blk |-> <<i, c[i], j>>] \o rest[2]>>
+       ELSE <<<<P[i]>> \o rest[1], <<<<i, 0, 0>>>> \o rest[2]>>
+RECURSIVE AllFrom(_, _)
+AllFrom(P, i) ==
+  IF i > Len(P) THEN <<<<>>, <<>>>>
+  ELSE LET rest == AllFrom(P, i + 1) IN
+       IF IsBranch(P[i])
+       THEN LET RECURSIVE Bs(_) Bs(b) == IF b > Len(P[i].bs) THEN <<<<>>, <<>>>>
+                                        ELSE LET blk == Block(P, i, b) r == Bs(b + 1)
+                                             IN <<blk \o r[1], [j \in DOMAIN blk |-> <<i, b, j>>] \o r[2]>>
+                r0 == Bs(1)
+            IN <<r0[1] \o rest[1], r0[2] \o rest[2]>>
+       ELSE <<<<P[i]>> \o rest[1], <<<<i, 0, 0>>>> \o rest[2]>>
+\* scope- and existence-related defects are defects of a control-flow path; occurrence counts and types
+\* are attributes of the rule as a whole (an element of the structure before a branch has one type, whichever
+\* block constrains it: the compiler reports `if x = y; branch { if p(x); } along { if q(_, y); }` as conflicting)
+PathClasses == {"VarIntroducedInThen", "WildcardInThen", "ThenDefinedVarNotNew", "Surjectivity"}
+ErrorsS(P) ==
+  LET perPath == UNION { LET pf == PathFrom(P, c, 1) IN
+                         { <<e[1], pf[2][e[2]]>> : e \in {e \in Errors(pf[1]) : e[1] \in PathClasses} } : c \in Choices(P) }
+      af == AllFrom(P, 1)
+      whole == { <<e[1], af[2][e[2]]>> : e \in {e \in Errors(af[1]) : e[1] \notin PathClasses} }
+  IN perPath \cup whole
+
 (* ---------------- program space of the probe ---------------- *)
 x == V("x")  y == V("y")
 TP == {x, y, W, Ap("c", <<>>), Ap("f", <<x>>), Ap("f", <<y>>), Ap("f", <<Ap("f", <<x>>)>>), Ap("g", <<x, y>>),
